@@ -27,6 +27,7 @@ CRATES = {
             ("src/compression/algorithms/adpcm.rs", "mpq/adpcm.rs", "verif_kani_adpcm", ""),
             ("src/tables/hash.rs", "mpq/tables_hash.rs", "verif_kani_tables_hash", ""),
             ("src/compression/algorithms/sparse.rs", "mpq/sparse.rs", "verif_kani_sparse", ""),
+            ("src/archive.rs", "mpq/v4_md5.rs", "verif_kani_v4md5", ""),
         ],
         # derived copy (scratch only): the sparse codec's source text with Vec<u8> -> bounded-array model BVec
         "derive": [("src/compression/algorithms/sparse.rs", "gen/sparse_bv.rs",
@@ -78,6 +79,16 @@ GLOBAL_ASSUMPTIONS = [
 ]
 
 OUTSIDE = {
+    "C03": [
+        "round trips through the real zlib / bzip2 / LZMA / PKWare / implode / Huffman codecs (external crates or table-driven loops beyond CBMC's reach): "
+        "for them only the store-raw rule (any codec behaviour), dispatch consistency and acceptance of every emit-able size pair are decided",
+        "the sparse codec on inputs of 9..137 bytes and beyond 138 bytes (cost grows with N^3; 10 bytes: no verdict in 30 min), and on 138-byte inputs of "
+        "another shape than 'literal run of 127..=131 bytes, zeros, arbitrary rest' (run bytes other than positions 0, 1, 126..R are the constant 0x55)",
+        "the bounded-array model of Vec<u8> in the derived copy of sparse.rs is trusted (same observable push / extend_from_slice / resize / len / deref semantics; "
+        "checked against the real functions on three concrete vectors)",
+        "multi-method selectors (sparse+zlib, sparse+bzip2 ...) beyond dispatch, ADPCM length / interleaving beyond decoder totality",
+        "KF-C03-ratio (the fixed 1000:1 ratio test rejects the library's own output) is excluded by assumption and witnessed",
+    ],
     "C04": [
         "names longer than 4 bytes (MPQ hash vs reference: 3 bytes; fold invariance: 4 bytes; HET hash: listed lengths up to 25)",
         "cipher buffers longer than 8 words / byte buffers longer than 17 bytes",
@@ -428,9 +439,12 @@ H("C19", "ffi", _F, "thorough", "C19.b seek step from any valid open-file state:
   ["c19b_set_file_pointer_step"], ["SFileSetFilePointer"],
   "file of 4 symbolic bytes, cursor in 0..=4, low/high offsets (i32), presence of the high pointer and move method (u32) symbolic",
   "one call on one fabricated FILES entry", stubs=[FMT, RS], timeout=2400)
-H("C19", "ffi", _F, "thorough", "C19.a read step: exactly min(to_read, remaining) bytes are copied, nothing beyond them is written, cursor advances",
-  ["c19a_read_step_t2", "c19a_read_step_t4"], ["SFileReadFile"],
-  "file of 3 symbolic bytes, cursor in 0..=3 symbolic, to_read in {2, 4}, 8-byte buffer with guard zone", "one call", stubs=[FMT, RS], timeout=2400)
+H("C19", "ffi", _F, "quick", "C19.a read step: exactly min(to_read, remaining) bytes are copied, nothing beyond them is written, cursor advances",
+  ["c19a_read_step_t4"], ["SFileReadFile"],
+  "file of 3 symbolic bytes, cursor in 0..=3 symbolic, to_read 4 (longer than the file: every short-read case), 8-byte buffer with guard zone", "one call", stubs=[FMT, RS], timeout=2400)
+H("C19", "ffi", _F, "thorough", "C19.a read step, to_read 2",
+  ["c19a_read_step_t2"], ["SFileReadFile"],
+  "file of 3 symbolic bytes, cursor in 0..=3 symbolic, to_read 2, 8-byte buffer with guard zone", "one call", stubs=[FMT, RS], timeout=2400)
 H("C19", "ffi", _F, "thorough", "C19.c never-issued and closed handles are errors", ["c19c_stale_handle"], ["SFileReadFile", "SFileCloseFile"],
   "handle 9 never issued, handle 7 closed before use", "-", stubs=[FMT, RS], timeout=2400)
 H("C19", "ffi", _F, "thorough", "C19.a info and size queries on an open file: the answer is the file's length / cursor, nothing is written beyond buffer_size (or at all on failure), "
@@ -455,7 +469,7 @@ H("C05", "mpq", _HD, "quick", "C05.mpq.1 MpqHeader::read is total on arbitrary (
 H("C05", "mpq", _HD, "quick", "C05.mpq.1 header discovery terminates when a user-data header points at or beyond the end of the file (any such offset)",
   ["c05_mpq_find_header_userdata_beyond_eof"], ["header::find_header_with_limits"],
   "file of 528 bytes: user-data header at offset 0 with 12 symbolic bytes, header_offset >= file size (symbolic)", "2 scan steps, unwind 6",
-  stubs=[FMT], timeout=900, termination_of=["find_header_with_limits"])
+  stubs=[FMT], timeout=2400, termination_of=["find_header_with_limits"])
 H("C05", "mpq", _HD, "thorough", "C05.mpq.1 header discovery terminates and reports no header for a file that contains none (no magic / user-data header pointing at a non-header)",
   ["c05_mpq_find_header_no_magic", "c05_mpq_find_header_userdata_inside"], ["header::find_header_with_limits"],
   "file of 528 bytes: 16 symbolic bytes at each scanned offset (0, 512), zeros elsewhere", "2 scan steps, unwind 6",
@@ -515,9 +529,7 @@ H("C03", "mpq", _SP, "quick", "C03.b sparse codec: decompress(compress(x), len) 
 H("C03", "mpq", _SP, "thorough", "C03.b sparse codec round trip, 6..8 bytes",
   ["c03b_sparse_roundtrip_n%d" % n for n in (6, 7, 8)], _spfn,
   "input [u8; N] fully symbolic", "N in {6, 7, 8} (N >= 10: no verdict in 30 min)", stubs=[FMT, BVEC], timeout=2400)
-H("C03", "mpq", _SP, "thorough", "C03.b sparse codec, run boundaries: R non-zero bytes, Z zero bytes, then arbitrary bytes",
-  ["c03b_sparse_roundtrip_run_n9"], _spfn,
-  "R, Z symbolic; all byte values symbolic", "N = 9 with R in 0..=9", stubs=[FMT, BVEC], timeout=2400)
+# c03b_sparse_roundtrip_run_n9 (shape harness at 9 bytes) is NOT registered: 10.8 GB after 7.5 min; the full 1..=8 byte harnesses subsume it.
 H("C03", "mpq", _SP, "thorough", "C03.b sparse codec, literal-run boundaries 0x80/0x81/0x82: R non-zero bytes, Z zero bytes, then arbitrary bytes",
   ["c03b_sparse_roundtrip_run_127_131_n138"], _spfn,
   "R in 127..=131 and Z symbolic; run bytes 0x55 except positions 0, 1, 126..R (symbolic non-zero); the bytes behind the zero run symbolic", "N = 138; per-loop unwinding bounds (checked by unwinding assertions)",
@@ -538,6 +550,12 @@ H("C05", "mpq", _SP, "thorough", "C05.mpq.9 sparse decoder is total on arbitrary
   "6-byte input", stubs=[FMT, BVEC], timeout=1800)
 H("C03", "mpq", _SP, "quick", "canary", ["c03b_sparse_canary"], _spfn, "vacuity twin", "-", expect="canary", stubs=[FMT, BVEC])
 
+# ------------------------------------------------------------------------------- C10.e V4 header digest coverage
+H("C10", "mpq", "verif_kani_v4md5", "quick", "C10.e the version-4 header digest is computed over exactly the 192 header bytes at the archive's own offset (archive at offset 0 / behind a 512-byte stub)",
+  ["c10e_v4_header_digest_input_offset0", "c10e_v4_header_digest_input_embedded"], ["archive::Archive::validate_v4_md5_checksums"],
+  "six probe bytes symbolic (file start, first / middle / last hashed byte, first and last byte of the stored digest), stored digest symbolic; table sizes 0",
+  "archive offset in {0, 512}; header branch only (no table digests)",
+  stubs=[FMT, MEMFILE, "md5::compress::compress -> recording tap (which bytes are hashed; digest values are not computed)"], timeout=900)
 # ------------------------------------------------------------------------------- C10.d sector checksum enforcement
 H("C10", "mpq", _BP, "quick", "C10.d a single-byte change anywhere in a checksummed single-unit file's data or checksum is detected (or the content is unchanged); the intact file verifies",
   ["c10d_single_byte_fault_detected", "c10d_intact_file_verifies"], _pathfns + ["adler2::adler32_slice"],
